@@ -7,6 +7,7 @@ import (
 	"os"
 	"path/filepath"
 	"sync"
+	"sync/atomic"
 	"time"
 
 	"github.com/canopy-network/canopy/lib"
@@ -141,6 +142,11 @@ type tap struct {
 	mu   sync.Mutex
 	pkts []tapPkt
 	id   crypto.PrivateKeyI
+	// hold mode, see pump
+	hold                atomic.Bool
+	holdTopic           int32
+	firstSeen, released bool
+	sawFirst            chan struct{}
 }
 
 func (t *tap) packets() []tapPkt {
@@ -150,27 +156,68 @@ func (t *tap) packets() []tapPkt {
 }
 
 func (t *tap) pump(from, to *c17.Raw, record bool) {
+	var held [][]byte // envelopes of the held topic waiting for a packet of another topic to overtake them
+	var heldPkts []tapPkt
 	for {
 		bz, err := c17.RecvLP(from)
 		if err != nil {
 			return
 		}
+		var pkt *tapPkt
 		if record {
 			env := new(p2p.Envelope)
 			if lib.Unmarshal(bz, env) == nil {
 				if m, e := lib.FromAny(env.Payload); e == nil {
 					if p, ok := m.(*p2p.Packet); ok && p.StreamId != lib.Topic_HEARTBEAT {
-						t.mu.Lock()
-						t.pkts = append(t.pkts, tapPkt{int32(p.StreamId), p.Eof, append([]byte(nil), p.Bytes...)})
-						t.mu.Unlock()
+						pkt = &tapPkt{int32(p.StreamId), p.Eof, append([]byte(nil), p.Bytes...)}
 					}
 				}
 			}
+		}
+		// hold mode (scenario interleaved-topics-first-large-message): after the FIRST packet of a
+		// multi-packet message on holdTopic has gone through, the following packets of that topic are
+		// kept back until a packet of ANOTHER message topic has overtaken them. Per-topic order is
+		// untouched; only the interleaving of topics on the wire changes.
+		if pkt != nil && t.hold.Load() {
+			switch {
+			case pkt.Topic == t.holdTopic && !t.firstSeen && !pkt.Eof:
+				t.firstSeen = true
+				if t.sawFirst != nil {
+					close(t.sawFirst)
+				}
+			case pkt.Topic == t.holdTopic && t.firstSeen && !t.released:
+				held = append(held, bz)
+				heldPkts = append(heldPkts, *pkt)
+				continue
+			case pkt.Topic != t.holdTopic && t.firstSeen && !t.released:
+				t.released = true
+				t.record(*pkt)
+				if err = c17.SendLP(to, bz); err != nil {
+					return
+				}
+				for i, h := range held {
+					t.record(heldPkts[i])
+					if err = c17.SendLP(to, h); err != nil {
+						return
+					}
+				}
+				held, heldPkts = nil, nil
+				continue
+			}
+		}
+		if pkt != nil {
+			t.record(*pkt)
 		}
 		if err = c17.SendLP(to, bz); err != nil {
 			return
 		}
 	}
+}
+
+func (t *tap) record(p tapPkt) {
+	t.mu.Lock()
+	t.pkts = append(t.pkts, p)
+	t.mu.Unlock()
 }
 
 // connectTapped: A --- M --- B.
